@@ -211,12 +211,15 @@ def c17(cx):
              'witnesses of every order type of the compared offsets (token / next token / line start), for inner '
              'tokens and the EOF token, in the debug and the release configuration; R-UNITS on buffer.rs; '
              'R-RESTORE (rollback cuts the line table, so no token precedes the start of its line - the ordering '
-             'the agreement relies on).')
+             'the agreement relies on) and, for the same reason, the LEA rule R-UNCONSUME (a cursor put back by hand takes '
+             'back the line starts recorded for the un-consumed text).')
 def c05(cx):
     rules_bulk.run(cx)
     rules_struct.r_units(cx, ["dev-none-stable"])
     # the two views agree only while no token precedes the start of its line: rollback must cut the line table
     rules_struct.r_restore(cx, cx.facts("dev-none-stable"))
+    # likewise a cursor put back by hand: a line start recorded for un-consumed text lies behind the next token (seed C05m)
+    lea_glue.apply(cx, ["R-UNCONSUME"])
 
 
 @prop("C11", 'LEA rules on macro-free open-code paths: R-PENDING (the pending-statement flag follows the last '
@@ -259,11 +262,13 @@ def c15(cx):
              'configuration): a MacroSep is produced only on paths where the predicate returned true, asked about '
              'the DEFAULT look-behind token, on DEFAULT without payload; R-INSERT-PROVENANCE; R-LOOKBEHIND (rows '
              "None and ';' identical); R-COMUTATE (derived buffer state is maintained by every mutator, incl. the "
-             'feature-only insert_token).')
+             'feature-only insert_token); R-ENUM-INDEX (the token index handed to insert_token by the feature-only look-back '
+             'iterator is an enumerate() over the whole token vector, nothing dropped before the numbering).')
 def c18(cx):
     rules_cfg.r_cfgdiff_macrosep(cx)
     rules_cfg.r_lookbehind(cx)
     rules_struct.r_comutate(cx, ["dev-none-stable", "dev-msep-stable"])
+    rules_struct.r_enum_index(cx, cx.facts("dev-msep-stable"))
     lea_glue.apply(cx, ["R-MACROSEP-EMIT"], tag="dev-msep-stable")
 
 
